@@ -25,6 +25,7 @@ func init() {
 			{"C07/keys", "legacy cache keyed by the request's connection id / the tunnel's RDGId from that header; registry keyed by a fresh UUID", c07Keys},
 			{"C07/fresh", "Tunnel values constructed only per request in HandleGatewayProtocol; Processor only in NewProcessor", c07Fresh},
 			{"C07/context-only", "security callbacks use only the tunnel of their own context; the packet loop's context carries its own tunnel", c07ContextOnly},
+			{"C07/shared-slices", "request-serving code never writes into a slice shared between requests (element store or append(s[:0], ...) on a package-variable / long-lived-field slice)", func(c *Ctx) { sharedSliceWrites(c, "C07/shared-slices") }},
 		},
 	})
 }
@@ -565,4 +566,128 @@ func derefUses(v ssa.Value, depth int) (write, api bool) {
 		}
 	}
 	return
+}
+
+// sharedSliceWrites: request-serving code must not write into slices it shares with other requests:
+// the configured host lists (security.Hosts, Handler.hosts — main hands the same backing array to
+// both) and any other slice held in a package variable or in a field of a long-lived object. Two
+// shapes are flagged in request-reachable first-party code: storing to an element of such a slice,
+// and the in-place rebuild idiom append(s[:0], ...) on such a slice (directly or through a helper's
+// parameter). One request's substitution of its user name then becomes every later request's list.
+func sharedSliceWrites(c *Ctx, rule string) {
+	reach := c.Reachable()
+	// isShared: the slice value is loaded from a package variable or a struct field, or is a
+	// parameter that some static caller fills with such a value
+	var isShared func(v ssa.Value, depth int) (bool, string)
+	isShared = func(v ssa.Value, depth int) (bool, string) {
+		if depth > 3 {
+			return false, ""
+		}
+		switch x := strip(v).(type) {
+		case *ssa.UnOp:
+			if x.Op != token.MUL {
+				return false, ""
+			}
+			if g, ok := x.X.(*ssa.Global); ok {
+				return true, "package variable " + g.Name()
+			}
+			if _, f, ok := fieldOfAddr(x.X); ok {
+				if _, isAlloc := baseOfFieldAddr(x.X).(*ssa.Alloc); !isAlloc {
+					return true, "field " + f.Name()
+				}
+			}
+		case *ssa.Slice:
+			return isShared(x.X, depth+1)
+		case *ssa.Parameter:
+			for _, u := range c.upValues(x, 0) {
+				if u == ssa.Value(x) {
+					continue
+				}
+				if ok, what := isShared(u, depth+1); ok {
+					return true, what + " (through parameter " + x.Name() + ")"
+				}
+			}
+		case *ssa.Phi:
+			for _, e := range x.Edges {
+				if e == ssa.Value(x) {
+					continue
+				}
+				if ok, what := isShared(e, depth+1); ok {
+					return true, what
+				}
+			}
+		}
+		return false, ""
+	}
+	n := 0
+	for _, fn := range c.allFirstPartyFuncs() {
+		if !reach[fn] {
+			continue
+		}
+		eachInstr(fn, func(in ssa.Instruction) {
+			switch x := in.(type) {
+			case *ssa.Call:
+				b, ok := x.Call.Value.(*ssa.Builtin)
+				if !ok || b.Name() != "append" || len(x.Call.Args) == 0 {
+					return
+				}
+				// the destination: s[:0] itself, or the loop variable that starts as s[:0]
+				var sl *ssa.Slice
+				var find func(v ssa.Value, d int)
+				find = func(v ssa.Value, d int) {
+					if sl != nil || d > 2 {
+						return
+					}
+					switch y := strip(v).(type) {
+					case *ssa.Slice:
+						if y.High != nil {
+							if k, isC := constInt(y.High); isC && k == 0 {
+								sl = y
+							}
+						}
+					case *ssa.Phi:
+						for _, e := range y.Edges {
+							find(e, d+1)
+						}
+					}
+				}
+				find(x.Call.Args[0], 0)
+				if sl == nil {
+					return
+				}
+				if shared, what := isShared(sl.X, 0); shared {
+					n++
+					c.Bad(rule, "in-place append in "+shortFn(fn), x.Pos(), "append(s[:0], ...) rebuilds %s in place: the slice is shared by all requests (the same backing array feeds the download handler and the tunnel's host policy), so what one request writes every later request reads", what)
+				}
+			case *ssa.Store:
+				ia, ok := x.Addr.(*ssa.IndexAddr)
+				if !ok {
+					return
+				}
+				if _, isSlice := ia.X.Type().Underlying().(*types.Slice); !isSlice {
+					return
+				}
+				if shared, what := isShared(ia.X, 0); shared {
+					n++
+					c.Bad(rule, "element store in "+shortFn(fn), x.Pos(), "an element of %s is overwritten while serving a request: the slice is shared by all requests", what)
+				}
+			}
+		})
+	}
+	if n == 0 {
+		c.OK(rule, "shared slices", token.NoPos, "request-serving code neither stores into nor rebuilds in place any slice held in a package variable or a long-lived object's field")
+	}
+}
+
+func baseOfFieldAddr(a ssa.Value) ssa.Value {
+	for {
+		fa, ok := a.(*ssa.FieldAddr)
+		if !ok {
+			return a
+		}
+		a = fa.X
+		if u, ok := a.(*ssa.UnOp); ok && u.Op == token.MUL {
+			a = u.X
+		}
+	}
 }
